@@ -197,6 +197,7 @@ func w1Census(p *Prog) *w1Result {
 		return r
 	}
 	fc := computeReturnsFresh(p)
+	w1Funcs = p.Funcs
 	res := &w1Result{}
 	for _, s := range collectStores(p) {
 		tr := traceAddr(s.addr)
@@ -295,6 +296,7 @@ func sameBases(a, b []base) bool {
 }
 
 func classifyW1(p *Prog, fc *freshCtx, s *w1Site) {
+	_ = w1Helpers
 	fn := s.fn
 	name := fnName(fn)
 	bases := resolveBases(fn, s.tr.bases)
@@ -372,16 +374,136 @@ func classifyW1(p *Prog, fc *freshCtx, s *w1Site) {
 		}
 	}
 
-	// G3 helper
-	if r, ok := w1Helpers[name]; ok {
-		s.class, s.reason = "G3", r
+	// G3 private helper: the written object is a parameter of an unexported,
+	// never address-taken function and every call site passes an object that
+	// is fresh or checked mutable there (recursively through further helpers)
+	if why, ok := helperJustified(p, fc, outermost(fn), nf, 0); ok {
+		s.class, s.reason = "G3", why
 		return
 	}
 }
 
-// findCheckMutableGuard looks for a call to a method named checkMutable
-// (any tracked type) on the same root whose nil result dominates instr.
-func findCheckMutableGuard(fn *ssa.Function, instr ssa.Instruction, roots []base) string {
+// helperJustified checks the call sites of fn for the parameters in roots.
+func helperJustified(p *Prog, fc *freshCtx, fn *ssa.Function, roots []base, depth int) (string, bool) {
+	if depth > 3 || len(roots) == 0 {
+		return "", false
+	}
+	if fn.Object() == nil || fn.Object().Exported() {
+		return "", false
+	}
+	var idxs []int
+	for _, b := range roots {
+		prm, ok := b.v.(*ssa.Parameter)
+		if !ok || prm.Parent() != fn {
+			return "", false
+		}
+		for i, q := range fn.Params {
+			if q == prm {
+				idxs = append(idxs, i)
+			}
+		}
+	}
+	ncalls := 0
+	for _, g := range p.Funcs {
+		bad := false
+		eachInstr(g, func(in ssa.Instruction) {
+			if bad {
+				return
+			}
+			// address-taken?
+			for _, op := range in.Operands(nil) {
+				if f, ok := (*op).(*ssa.Function); ok && f == fn {
+					if ci, ok := in.(ssa.CallInstruction); !ok || ci.Common().Value != f {
+						bad = true
+					}
+				}
+			}
+			ci, ok := in.(ssa.CallInstruction)
+			if !ok || ci.Common().StaticCallee() != fn {
+				return
+			}
+			ncalls++
+			for _, i := range idxs {
+				arg := resolveBases(g, traceAddr(ci.Common().Args[i]).bases)
+				var nf []base
+				for _, b := range arg {
+					if b.throughPtr || !isFreshValue(fc, b.v) {
+						nf = append(nf, b)
+					}
+				}
+				if len(nf) == 0 {
+					continue
+				}
+				if findCheckMutableGuard(g, in, nf) != "" {
+					continue
+				}
+				if _, ok := helperJustified(p, fc, outermost(g), nf, depth+1); ok {
+					continue
+				}
+				bad = true
+			}
+		})
+		if bad {
+			return "", false
+		}
+	}
+	if ncalls == 0 {
+		return "", false
+	}
+	return fmt.Sprintf("private helper %s: all %d call sites pass a fresh or checked-mutable object", fnName(fn), ncalls), true
+}
+
+// guardWrappers: functions that return a nil error only after a successful
+// checkMutable (or another wrapper) on the object passed as parameter i
+// (Min et al.: "treat a wrapper as acquiring the lock when all its paths
+// return with the lock held"). Computed as a least fixpoint over the module.
+var guardWrapperCache = map[*ssa.Program]map[*ssa.Function]map[int]bool{}
+
+func guardWrappers(prog *ssa.Program, funcs []*ssa.Function) map[*ssa.Function]map[int]bool {
+	if m, ok := guardWrapperCache[prog]; ok {
+		return m
+	}
+	m := map[*ssa.Function]map[int]bool{}
+	guardWrapperCache[prog] = m
+	errT := types.Universe.Lookup("error").Type()
+	for changed := true; changed; {
+		changed = false
+		for _, fn := range funcs {
+			res := fn.Signature.Results()
+			if res.Len() == 0 || !types.Identical(res.At(res.Len()-1).Type(), errT) || fn.Name() == "checkMutable" {
+				continue
+			}
+			for i, prm := range fn.Params {
+				if m[fn][i] {
+					continue
+				}
+				okAll, any := true, false
+				eachInstr(fn, func(in ssa.Instruction) {
+					r, isr := in.(*ssa.Return)
+					if !isr || !isNilConst(r.Results[len(r.Results)-1]) {
+						return
+					}
+					any = true
+					if guardDominates(fn, r, []base{{v: prm}}, m) == "" {
+						okAll = false
+					}
+				})
+				if okAll && any {
+					if m[fn] == nil {
+						m[fn] = map[int]bool{}
+					}
+					m[fn][i] = true
+					changed = true
+				}
+			}
+		}
+	}
+	return m
+}
+
+// guardDominates: is instr dominated by the nil-error edge of a checkMutable
+// (or guard wrapper) call on the object(s) in roots?
+func guardDominates(fn *ssa.Function, instr ssa.Instruction, roots []base, wrappers map[*ssa.Function]map[int]bool) string {
 	var found string
 	eachInstr(fn, func(in ssa.Instruction) {
 		if found != "" {
@@ -392,18 +514,58 @@ func findCheckMutableGuard(fn *ssa.Function, instr ssa.Instruction, roots []base
 			return
 		}
 		cal := call.Call.StaticCallee()
-		if cal == nil || cal.Name() != "checkMutable" || cal.Signature.Recv() == nil {
+		if cal == nil {
 			return
 		}
-		if !dominatedByNilErr(instr.Block(), call) {
+		var idxs []int
+		if cal.Name() == "checkMutable" && cal.Signature.Recv() != nil {
+			idxs = []int{0}
+		} else if w := wrappers[cal]; w != nil {
+			for i := range w {
+				idxs = append(idxs, i)
+			}
+		} else {
 			return
 		}
-		recv := resolveBases(fn, traceAddr(call.Call.Args[0]).bases)
-		if sameBases(roots, recv) {
-			found = "dominated by successful " + fnName(cal)
+		// the error result (single result or last of a tuple)
+		var errv ssa.Value = call
+		if tup, ok := call.Type().(*types.Tuple); ok {
+			errv = nil
+			for _, r := range *call.Referrers() {
+				if ex, ok := r.(*ssa.Extract); ok && ex.Index == tup.Len()-1 {
+					errv = ex
+				}
+			}
+		}
+		if errv == nil || !dominatedByNilErr(instr.Block(), errv) {
+			return
+		}
+		for _, i := range idxs {
+			if i >= len(call.Call.Args) {
+				continue
+			}
+			recv := resolveBases(fn, traceAddr(call.Call.Args[i]).bases)
+			if sameBases(roots, recv) {
+				found = "dominated by successful " + fnName(cal)
+			}
 		}
 	})
 	return found
+}
+
+var w1Funcs []*ssa.Function
+
+// curProg is the program currently being analysed (set by main after loading).
+var curProg *Prog
+
+// findCheckMutableGuard looks for a call to a checkMutable method (or a
+// verified wrapper of one) on the same root whose nil result dominates instr.
+func findCheckMutableGuard(fn *ssa.Function, instr ssa.Instruction, roots []base) string {
+	var wr map[*ssa.Function]map[int]bool
+	if fn.Prog != nil && curProg != nil && curProg.SSA == fn.Prog {
+		wr = guardWrappers(fn.Prog, curProg.Funcs)
+	}
+	return guardDominates(fn, instr, roots, wr)
 }
 
 // frozenGuard: is block b dominated by the false edge of a test of
@@ -472,8 +634,6 @@ func ruleW1(c *Ctx) {
 			c.viol(key, pos, fmt.Sprintf("store to %s (owner %s) is not on a fresh object, not dominated by a successful checkMutable of the same object, not a !frozen-guarded flag store, and not a listed helper/exception; bases: %s", s.fkey, s.owner, describeBases(resolveBases(s.fn, s.tr.bases))))
 		}
 	}
-	// G3: verify helper call sites
-	checkHelperCallers(c)
 }
 
 func describeBases(bs []base) string {
